@@ -227,6 +227,15 @@ proof fn theorem_c01_encode_then_decode(p: Packet, r_enc: Result<Vec<u8>, Messag
     assert(((mid / 256) as u8 as int) * 256 + ((mid % 256) as u8 as int) == mid as int);
     let m = parse_msg(b);
     assert(m is Some);
+    // the encoder's image never ends in a bare marker: its tail is empty or marker + non-empty payload
+    assert(!lone_marker(b)) by {
+        let idx = pre.len() as int;
+        assert(idx == 4 + (b[0] as int) % 16) by { lemma_nibbles(vtt); }
+        lemma_wire_parse(b, idx, 0);
+        assert(b.subrange(idx, b.len() as int) =~= wire_opts(opts, 0) + tail);
+        assert(b.subrange(idx, b.len() as int) == wire_opts(opts, 0) + tail_of(b, idx));
+        assert(tail_of(b, idx).len() == tail.len());
+    }
     assert(m->0.opts == opts);
     assert(m->0.payload == payload_of(tail));
     assert(payload_of(tail) =~= (if code != 0 { p.payload@ } else { Seq::<u8>::empty() })) by {
